@@ -210,9 +210,6 @@ class Run:
                 rec["err"] = kit.classify(ex)
                 rec["msg"] = str(ex)[:200]
                 model = None
-            if model is None:
-                import gc
-                gc.collect()
             rec["calls"] = list(kit.LOG)
             if model is not None:
                 reg.models.append(model)
@@ -298,7 +295,8 @@ class Run:
                     reg.models[mi] = None
             self.builders.pop(op["m"], None)
             del model, mm
-            gc.collect()
+            if any(reg.nodes[i].model is not None for i in rec["mnodes"]):
+                gc.collect()                 # only if reference counting did not free the model already (slow)
             rec["ok"] = True
         elif kind == "gbrename":
             import re as _re
@@ -862,7 +860,7 @@ def gen_prog(rnd, style, size):
 
 STYLES = ["plain", "unnamed", "seeded", "dup", "cycle", "groups", "copy", "premut", "foreign", "livecopy", "reuse", "resnames", "rename", "auto", "dropped", "manynames"]
 MIN_PER_STYLE = {"quick": 12, "thorough": 120}
-STYLE_COUNT = {"auto": {"quick": 10, "thorough": 40}, "manynames": {"quick": 8, "thorough": 40}}
+STYLE_COUNT = {"auto": {"quick": 12, "thorough": 100}, "manynames": {"quick": 10, "thorough": 100}}
 
 
 def concretise(run, op, rnd):
@@ -1104,7 +1102,7 @@ def generate(ctx):
     ]
     ctx.assume += [
         "networkx.topological_sort is an oracle: the order it returned is checked by is_topo inside the model (C15_topological), a rejection for a cycle is checked against a cycle witness (C15_cycle_has_no_order)",
-        "no auto_transform variables and no user-defined log-prob nodes in the generated graphs (C14 / C02 cover those paths)",
+        "no user-defined log-prob nodes in the generated graphs (C02 covers that path); auto_transform is modelled structurally (graph surgery and flags), the bijector mathematics is C14's; Var.strong is read off the snapshot as 'value node without inputs'",
         "the code variant pinned by the correspondence is strip=true (005a821), check_first=true (5ebbe54) and proxy_fix=true (66a7abc)",
     ]
     return cases
